@@ -24,11 +24,11 @@ pub struct RealCase
 fn step() -> impl Strategy<Value = Op>
 {
     prop_oneof![
-        5 => (any::<u16>(), 0u8..5).prop_map(|(leaf, content)| Op::Edit { leaf, content }),
+        5 => (any::<u16>(), 0u8..gen::N_CONTENTS).prop_map(|(leaf, content)| Op::Edit { leaf, content }),
         3 => any::<u16>().prop_map(|leaf| Op::Revert { leaf }),
         6 => prop_oneof![2 => Just(None), 1 => any::<u16>().prop_map(Some)].prop_map(|goal| Op::Build { goal }),
         2 => prop_oneof![2 => Just(None), 1 => any::<u16>().prop_map(Some)].prop_map(|goal| Op::Clean { goal }),
-        2 => (any::<u16>(), 0u8..5).prop_map(|(t, content)| Op::Tamper { t, content }),
+        2 => (any::<u16>(), 0u8..gen::N_CONTENTS).prop_map(|(t, content)| Op::Tamper { t, content }),
         2 => any::<u16>().prop_map(|t| Op::DeleteTarget { t }),
     ]
 }
